@@ -1,20 +1,33 @@
-(* C17 — v4 time and frequency axes; preselection is equivalent to selection.  Statements only. *)
+(* C17 — v4 time and frequency axes; preselection is equivalent to selection.  Statements only.
+   Model side (model_timestamp etc., chan_freq, subrange, rechannelise, v4_spw, preselect_ok, fix_rule): the katdal code as
+   re-translated from the source on every run (Gen/Generated.v).  Spec side (raw sums, doc_fix_date, spec_timestamp, spec_chan_freq): the
+   documented formulas.  See design.d/C17.md for the clause-by-clause map. *)
 From Coq Require Import ZArith QArith List Bool String.
 From KV Require Import Base.Sx Base.Str Gen.Generated Model.TimeFreq Proofs.TimeFreqP.
 Import ListNotations.
 Open Scope Q_scope.
 
-(* The date rule in VisibilityDataV4.__init__ (re-translated from the source on every run) is the documented
-   table "CMC2 4k fixed 2019-02-11, CMC2 1k fixed 2019-03-03, CMC1 fixed 2019-03-15" for EVERY first timestamp. *)
+(* ---- clause 1: mid-point timestamps ---- *)
+(* The date rule in VisibilityDataV4.__init__ is the documented table "CMC2 4k fixed 2019-02-11, CMC2 1k fixed
+   2019-03-03, CMC1 fixed 2019-03-15" for EVERY first timestamp. *)
 Theorem C17_fix_rule_table : forall (t : Q) (cmc2 cbf4k : bool),
   fix_rule (fun d => Qltb t (inject_Z d)) cmc2 cbf4k = Qltb t (inject_Z (doc_fix_date cmc2 cbf4k)).
 Proof. exact fix_rule_table. Qed.
 Print Assumptions C17_fix_rule_table.
 
 Theorem C17_fix_constants : fix_dates = [1549843200; 1551571200; 1552608000]%Z
-  /\ fix_cmc2_marker = "cbf_dev"%string /\ fix_cbf4k_marker = "c856M4k"%string.
+  /\ fix_cmc2_marker = "cbf_dev"%string /\ fix_cbf4k_marker = "c856M4k"%string
+  /\ fix_cmc2_attr = "sub_pool_resources"%string /\ fix_cbf4k_attr = "sub_product"%string.
 Proof. exact fix_dates_documented. Qed.
 Print Assumptions C17_fix_constants.
+
+(* the data source synthesises sync_time + first_timestamp + k * int_time and remembers the first timestamp of the
+   CAPTURE whatever dumps are preselected *)
+Theorem C17_datasource_timestamps : forall tm a k,
+  synth tm k == t_sync tm + t_first tm + inject_Z k * t_int tm /\
+  src_base tm a = a /\ d_src_cap (run_ds tm a) = Some (synth tm 0).
+Proof. intros tm a k. split; [exact (synth_closed tm k)|split; reflexivity]. Qed.
+Print Assumptions C17_datasource_timestamps.
 
 (* dump i of a data set opened without preselection: sync + first + i*int + offset, minus one CBF dump
    exactly for captures that start before the documented fix date of their correlator *)
@@ -26,39 +39,104 @@ Theorem C17_timestamp_formula : forall tm i,
 Proof. intros tm i. rewrite timestamp_formula. exact (timestamp_closed_form tm i). Qed.
 Print Assumptions C17_timestamp_formula.
 
-Theorem C17_start_end_bracket : forall tm n,
-  model_start_time tm 0 == spec_timestamp tm 0 - (1#2) * t_int tm /\
-  model_end_time tm 0 n == spec_timestamp tm (n - 1) + (1#2) * t_int tm.
+(* the workaround is recorded in the time_offset attribute (also of a preselected data set) *)
+Theorem C17_time_offset_records_fix : forall tm a,
+  model_time_offset tm a == t_off tm - spec_fix_amount tm.
+Proof. exact time_offset_records. Qed.
+Print Assumptions C17_time_offset_records_fix.
+
+(* ---- clause 2: start and end bracket the first and last dump by half a dump (any preselected range a:a+n) ---- *)
+Theorem C17_start_end_bracket : forall tm a n,
+  model_start_time tm a n == spec_timestamp tm a - (1#2) * t_int tm /\
+  model_end_time tm a n == spec_timestamp tm (a + n - 1) + (1#2) * t_int tm.
 Proof. exact start_end_bracket. Qed.
 Print Assumptions C17_start_end_bracket.
 
+Theorem C17_start_end_bracket_own_dumps : forall tm a n,
+  model_start_time tm a n == model_timestamp tm a 0 - (1#2) * t_int tm /\
+  model_end_time tm a n == model_timestamp tm a (n - 1) + (1#2) * t_int tm.
+Proof. exact start_end_bracket_model. Qed.
+Print Assumptions C17_start_end_bracket_own_dumps.
+
+(* ---- clause 3: channel frequencies ---- *)
 Theorem C17_channel_formula : forall c bw n k, (0 < n)%Z ->
   chan_freq (mkSpw c bw n 1) k == c + inject_Z (k - n / 2) * bw / inject_Z n.
 Proof. exact channel_formula. Qed.
 Print Assumptions C17_channel_formula.
 
-(* sub-ranges: channel j of spw.subrange(first, last) has the centre of channel first+j; same width;
+(* both sidebands *)
+Theorem C17_channel_formula_sideband : forall w k, (s_n w <> 0)%Z ->
+  chan_freq w k == s_centre w + inject_Z (s_side w) * (inject_Z (k - s_n w / 2) * s_bw w / inject_Z (s_n w)).
+Proof. exact chan_freq_closed. Qed.
+Print Assumptions C17_channel_formula_sideband.
+
+(* the window VisibilityDataV4 builds from the telstate attributes center_freq, bandwidth, n_chans *)
+Theorem C17_v4_channel_formula : forall c bw n k, (0 < n)%Z ->
+  chan_freq (v4_spw c bw n) k == c + inject_Z (k - n / 2) * bw / inject_Z n /\
+  chan_width (v4_spw c bw n) == bw / inject_Z n.
+Proof. exact v4_channel_formula. Qed.
+Print Assumptions C17_v4_channel_formula.
+
+Theorem C17_v4_freq_constants :
+  gen_v4_freq_attrs = [("num_chans", "n_chans"); ("bandwidth", "bandwidth"); ("centre_freq", "center_freq")]%string
+  /\ gen_v4_sideband = 1%Z.
+Proof. exact v4_freq_attrs_documented. Qed.
+Print Assumptions C17_v4_freq_constants.
+
+(* the channel_width attribute is bandwidth / num_chans on both construction paths of SpectralWindow.__init__ *)
+Theorem C17_spw_init_width : forall c cw n sd bw, (n <> 0)%Z ->
+  init_width_attr (c, cw, n, sd, bw) == chan_width (spw_init (c, cw, n, sd, bw)).
+Proof. exact init_width_consistent. Qed.
+Print Assumptions C17_spw_init_width.
+
+(* ---- clause 7: sub-ranges and re-channelisations stay aligned with the original ---- *)
+(* channel j of spw.subrange(first, last) has the centre of channel first+j; same width;
    and exactly the non-empty sub-intervals are accepted *)
 Theorem C17_subrange_aligned : forall w f l w' j, subrange w f l = Some w' ->
   chan_freq w' j == chan_freq w (f + j) /\ chan_width w' == chan_width w.
 Proof. intros w f l w' j H. split; [exact (subrange_aligned w f l w' j H)|exact (subrange_width w f l w' H)]. Qed.
 Print Assumptions C17_subrange_aligned.
 
+Theorem C17_subrange_edges : forall w f l w', subrange w f l = Some w' ->
+  (forall j, chan_lo w' j == chan_lo w (f + j)) /\
+  band_lo w' == chan_lo w f /\
+  band_hi w' == chan_freq w (l - 1) + inject_Z (s_side w) * (1#2) * chan_width w.
+Proof. exact subrange_edges. Qed.
+Print Assumptions C17_subrange_edges.
+
 Theorem C17_subrange_rejects : forall w f l,
   subrange w f l = None <-> ~ ((0 <= f)%Z /\ (f < l)%Z /\ (l <= s_n w)%Z).
 Proof. exact subrange_none. Qed.
 Print Assumptions C17_subrange_rejects.
 
-(* re-channelisation keeps both band edges (for both sidebands, odd and even channel counts) *)
+(* re-channelisation keeps both band edges (for both sidebands, odd and even channel counts), the bandwidth,
+   the sideband and produces the requested number of channels *)
 Theorem C17_rechannelise_edges : forall w m, (0 < s_n w)%Z -> (0 < m)%Z ->
   band_lo (rechannelise w m) == band_lo w /\ band_hi (rechannelise w m) == band_hi w.
 Proof. exact rechannelise_edges. Qed.
 Print Assumptions C17_rechannelise_edges.
 
+Theorem C17_rechannelise_shape : forall w m, (0 < s_n w)%Z -> (0 < m)%Z ->
+  s_bw (rechannelise w m) = s_bw w /\ s_n (rechannelise w m) = m /\ s_side (rechannelise w m) = s_side w.
+Proof. intros w m Hn Hm. destruct (rechannelise_band_centre w m Hn Hm) as (_ & H). exact H. Qed.
+Print Assumptions C17_rechannelise_shape.
+
+(* the channel grids stay aligned: lower edge of new channel j = lower edge of original channel k whenever j/m = k/n *)
+Theorem C17_rechannelise_grid : forall w m j k, (0 < s_n w)%Z -> (0 < m)%Z -> (j * s_n w = k * m)%Z ->
+  chan_lo (rechannelise w m) j == chan_lo w k.
+Proof. exact rechannelise_grid. Qed.
+Print Assumptions C17_rechannelise_grid.
+
 Theorem C17_rechannelise_centre_odd : forall w m, (0 < s_n w)%Z -> (0 < m)%Z ->
   (s_n w mod 2 = 1)%Z -> (m mod 2 = 1)%Z -> s_centre (rechannelise w m) == s_centre w.
 Proof. exact rechannelise_centre_odd. Qed.
 Print Assumptions C17_rechannelise_centre_odd.
+
+(* ---- clause 4: preselection = selection ---- *)
+(* dump i of a data set opened with preselect dumps = a:... has the documented timestamp of dump a+i of the capture *)
+Theorem C17_preselect_timestamp : forall tm a i, model_timestamp tm a i == spec_timestamp tm (a + i).
+Proof. exact preselect_timestamp. Qed.
+Print Assumptions C17_preselect_timestamp.
 
 (* timestamps of a preselected data set = timestamps a..b of the whole data set, for every timing, every
    capture date and every range (after the repair of F21 the fix decision looks at the start of the capture) *)
@@ -81,18 +159,36 @@ Theorem C17_preselect_freqs : forall w c d w' j,
 Proof. exact preselect_freqs. Qed.
 Print Assumptions C17_preselect_freqs.
 
+(* a v4 data set preselected to channels c:d: every valid range is accepted, has d-c channels, and channel j sits
+   at the documented frequency of channel c+j of the whole data set *)
+Theorem C17_v4_preselect_freqs : forall centre bw n c d, (0 <= c)%Z -> (c < d)%Z -> (d <= n)%Z ->
+  exists w', subrange (v4_spw centre bw n) c d = Some w' /\ s_n w' = (d - c)%Z /\
+  forall j, chan_freq w' j == centre + inject_Z (c + j - n / 2) * bw / inject_Z n.
+Proof. exact v4_preselect_freqs. Qed.
+Print Assumptions C17_v4_preselect_freqs.
+
 (* any per-dump quantity computed pointwise from the timestamps (numeric sensors: interpolation onto the
-   dump grid) commutes with the restriction to dumps a..b; later selections are relative to the subset *)
+   dump grid) commutes with the restriction to dumps a..b *)
 Theorem C17_pointwise_commutes : forall (A B : Type) (f : A -> B) a b l,
   map f (slice a b l) = slice a b (map f l).
 Proof. intros A B f a b l. exact (map_slice f a b l). Qed.
 Print Assumptions C17_pointwise_commutes.
 
+(* ---- clause 5: later selections are relative to the preselected subset ---- *)
 Theorem C17_later_selection_relative : forall (A : Type) a b (l : list A) j d, (j < b - a)%nat ->
   nth j (slice a b l) d = nth (a + j) l d.
 Proof. intros A a b l j d H. exact (nth_slice a b l j d H). Qed.
 Print Assumptions C17_later_selection_relative.
 
+(* dumps x0:x1 and channels y0:y1 of the (dumps a:b, channels c:d) subset of a time x frequency array are
+   dumps a+x0:a+x1 and channels c+y0:c+y1 of the whole array *)
+Theorem C17_later_selection_composes : forall (A : Type) a b c d x0 x1 y0 y1 (m : list (list A)),
+  (x1 <= b - a)%nat -> (y1 <= d - c)%nat ->
+  slice2 x0 x1 y0 y1 (slice2 a b c d m) = slice2 (a + x0) (a + x1) (c + y0) (c + y1) m.
+Proof. intros A a b c d x0 x1 y0 y1 m Hx Hy. exact (slice2_slice2 a b c d x0 x1 y0 y1 m Hx Hy). Qed.
+Print Assumptions C17_later_selection_composes.
+
+(* ---- clause 6: unknown keys and non-unit steps are rejected ---- *)
 Theorem C17_preselect_rejects : forall keys steps,
   preselect_ok keys steps = true <->
   (forall k, In k keys -> k = "channels"%string \/ k = "dumps"%string) /\
